@@ -20,7 +20,9 @@ func (prop) ID() string { return "C37" }
 func (prop) Rule() string {
 	return "cases: 1-6 ops on one protocol's real service (handshake listener/dialer, hive2, retrieval, chunkinfo req/resp/pyramid, routetab req/resp/findUnderlay/relay/connChain, " +
 		"pingpong, trafficprotocol cheque/init, multicast handshake/findGroup/multicast/notify/message and the client reads of each), optional set-up ops that create the local state a message " +
-		"interacts with (known file with n chunks, running discovery queue, registered cheque peer, joined+subscribed group). Stream bytes are (a) structured: every protobuf type with each field " +
+		"interacts with (known file with n chunks, running discovery queue, registered cheque peer, joined+subscribed group); chunkinfo also multi-step ChunkInfoResp sequences on the same (root, overlay): " +
+		"a stored presence vector followed by vectors of equal / shorter / longer (by 1 byte, by many) / empty length, every ordered pair of lengths plus random orders of 2-5 (messages that reach the " +
+		"service's worker goroutine in those branches run first in a mirror process, whose death is the outcome panic). Stream bytes are (a) structured: every protobuf type with each field " +
 		"missing / empty / short / typical / oversized / inconsistent with its siblings, marshalled by the real writer, (b) hand-encoded wire variants (wrong wire type, unknown fields, nested truncation), " +
 		"(c) raw: random bytes, truncated frames, length prefix > 1 MiB, trailing frames. Each handler op also runs the later local use of the state it left. Fixed regression cases (fix-...) first. " +
 		"Non-trivial: at least one op whose stream decoded into a message (the handler body ran); distinct by op-list hash."
@@ -51,7 +53,21 @@ func (rn *runner) Close() {
 	}
 	if rn.ci != nil {
 		rn.ci.cancel()
+		rn.ci.stopMirror()
 	}
+}
+
+// after a panic / hang the service may hold locks or half-written state: it is discarded
+func needsReset(out string) bool {
+	return strings.HasPrefix(out, "panic") || strings.Contains(out, " panic") || strings.HasPrefix(out, "hang")
+}
+
+func (rn *runner) dropCi() {
+	if rn.ci != nil {
+		rn.ci.cancel()
+		rn.ci.stopMirror()
+	}
+	rn.ci = nil
 }
 
 func (rn *runner) Step(ctx *core.Ctx, op []string) string {
@@ -79,7 +95,7 @@ func (rn *runner) Step(ctx *core.Ctx, op []string) string {
 	default:
 		return "bad-op"
 	}
-	if strings.HasPrefix(out, "panic") || strings.Contains(out, " panic") || strings.HasPrefix(out, "hang") {
+	if needsReset(out) {
 		// the service may hold locks / half-written state: start over (the model resets the protocol too)
 		switch {
 		case strings.HasPrefix(op[0], "hs."):
@@ -89,7 +105,7 @@ func (rn *runner) Step(ctx *core.Ctx, op []string) string {
 		case strings.HasPrefix(op[0], "ret."):
 			rn.ret = nil
 		case strings.HasPrefix(op[0], "ci."):
-			rn.ci = nil
+			rn.dropCi()
 		case strings.HasPrefix(op[0], "rt."):
 			rn.rt = nil
 		case strings.HasPrefix(op[0], "ping."):
